@@ -64,6 +64,8 @@ pub struct Device {
     /// block ranges currently pinned by parked readers: (first block, blocks)
     pub watch_overwrite: Vec<(u64, u64)>,
     pub overwrite_hits: Vec<(u64, u64)>,
+    /// fsyncs that reached the device and have not returned yet
+    pub open_fsyncs: usize,
 }
 
 pub type DeviceRef = Arc<Mutex<Device>>;
@@ -75,6 +77,10 @@ struct Registry {
 fn registry() -> &'static Registry {
     static R: OnceLock<Registry> = OnceLock::new();
     R.get_or_init(|| Registry { devices: Mutex::new(HashMap::new()) })
+}
+
+thread_local! {
+    static SKIP_FSYNC_AFTER: std::cell::Cell<bool> = const { std::cell::Cell::new(false) };
 }
 
 struct Consumer;
@@ -175,6 +181,11 @@ impl IoConsumer for Consumer {
                         IoKind::Fsync => {
                             if !matches!(decision, IoDecision::FailBefore(_)) {
                                 d.entries.push(Entry::FsyncBegin);
+                                d.open_fsyncs += 1;
+                            } else {
+                                // the matching after() call of this thread must not close another
+                                // thread's fsync
+                                SKIP_FSYNC_AFTER.with(|f| f.set(true));
                             }
                         }
                         _ => {
@@ -201,8 +212,14 @@ impl IoConsumer for Consumer {
         }
         match ev.kind {
             IoKind::Fsync => {
-                // a FailBefore fsync never reached the device: no FsyncBegin was pushed
-                if matches!(d.entries.last(), Some(Entry::FsyncBegin)) {
+                // a FailBefore fsync never reached the device: no FsyncBegin was pushed. Other
+                // threads (application marks, other writers) may have appended entries since the
+                // FsyncBegin, so the end is matched by count, not by position.
+                if SKIP_FSYNC_AFTER.with(|f| f.replace(false)) {
+                    return;
+                }
+                if d.open_fsyncs > 0 {
+                    d.open_fsyncs -= 1;
                     d.entries.push(Entry::FsyncEnd { ok });
                 }
             }
